@@ -265,3 +265,6 @@ func TestC13(t *testing.T) {
 		}
 	})
 }
+
+// FuzzC13 is the native coverage-guided supplement of the generated part (thorough tier only).
+func FuzzC13(f *testing.F) { fuzzProperty(f, TestC13) }
